@@ -698,6 +698,21 @@ class Enumerator:
         f = self._fold(full)
         if f is None:
             f = self._coll_truth(prim, st)
+        if f is None and isinstance(full, ast.Compare) and len(
+                full.ops) == 1 and isinstance(full.ops[0], ast.Is) and \
+                isinstance(full.comparators[0], ast.Constant) and \
+                full.comparators[0].value is None:
+            # an object that passed an isinstance() test is not None
+            lk = key_of(full.left)
+            for c in st.conds:
+                if c.kind == 'test' and c.pol and isinstance(
+                        c.expr, ast.Call) and isinstance(
+                            c.expr.func, ast.Name) and \
+                        c.expr.func.id == 'isinstance' and len(
+                            c.expr.args) == 2 and key_of(
+                                c.expr.args[0]) == lk and 'NoneType' not in \
+                        ast.unparse(c.expr.args[1]):
+                    f = False
         if f is not None:
             yield st, (f != flip)
             return
